@@ -64,7 +64,7 @@ def _is_errors_name(name: str | None) -> bool:
 # ---- (a) third-party parser boundary ---------------------------------------------------------------------------
 
 def rule_a(rep: Report, idx: SourceIndex, typer: Typer) -> None:
-	r = rep.rule('C07/parser-boundary', 'every <lark.Lark>.parse(...) call lies in a try whose handler catches Exception (or broader) and raises Errors.Syntax', floor=2)
+	r = rep.rule('C07/parser-boundary', 'every <lark.Lark>.parse(...) call lies in a try whose handler catches Exception (or broader) and raises Errors.Syntax', floor=1)
 	m = idx.mod('rogw/tranp/implements/syntax/lark/parser.py')
 	rep.consulted(m.relpath)
 	n_sites = 0
@@ -99,8 +99,8 @@ def rule_a(rep: Report, idx: SourceIndex, typer: Typer) -> None:
 						break
 				key = f'{q}:{unparse(n)}'
 				r.check(ok, key, (m.relpath, n.lineno), f'third-party parser call `{unparse(n)}` in {q} is not enclosed by `except Exception -> raise Errors.Syntax`: lark.UnexpectedInput escapes for unparsable text (in-memory modules take this branch)', unparse(stmt_of(n, pm)))
-	if n_sites < 2:
-		raise AnalysisError(f'C07-a: only {n_sites} lark parse call sites found in lark/parser.py (expected 2)')
+	if n_sites < 1:
+		raise AnalysisError('C07-a: no lark parse call site found in lark/parser.py')
 
 
 # ---- (b) Procedure ladder ----------------------------------------------------------------------------------------
@@ -382,31 +382,54 @@ def rule_f(rep: Report, idx: SourceIndex) -> None:
 	m = idx.mod('rogw/tranp/bin/transpile.py')
 	rep.consulted(m.relpath)
 	run = m.func('Interactive.run')
-	pm = parent_map(run.node)
-	targets = []
-	for n in walk_no_nested(run.node):
-		if isinstance(n, ast.Call) and isinstance(n.func, ast.Attribute) and n.func.attr in ('rebuild_module', 'transpile'):
-			targets.append(n)
-	if len(targets) < 2:
-		raise AnalysisError('C07-f: Interactive.run no longer calls rebuild_module and transpile')
-	for n in targets:
-		ok, in_loop = False, False
-		for t in enclosing_tries(n, pm):
+	from vlib.norm import helper_closure
+	members = helper_closure(run, 2)
+	members = [g for g in members if g.cls is run.cls and (g is run or g.name not in ('rebuild_module',))]
+	pms = {id(g): parent_map(g.node) for g in members}
+
+	def in_while(g, node) -> bool:
+		cur = node
+		while id(cur) in pms[id(g)]:
+			cur = pms[id(g)][id(cur)]
+			if isinstance(cur, ast.While):
+				return True
+		return False
+
+	def caught(g, node, need_loop: bool) -> bool:
+		"""node (in g) is inside a try whose handler catches Errors.Error, renders it and does not re-raise; the try is inside the while loop (directly, or g is only called from inside it)"""
+		for t in enclosing_tries(node, pms[id(g)]):
 			for h in t.handlers:
-				ts = handler_types(h)
-				if set(ts) & {'Errors.Error', 'Exception'}:
+				if set(handler_types(h)) & {'Errors.Error', 'Exception'}:
 					renders = any(isinstance(x, ast.Call) and attr_chain(x.func) == 'ErrorRender' for x in ast.walk(h))
-					no_raise = not handler_raises(h)
-					# the try must be inside the while loop so the loop continues
-					cur = t
-					while id(cur) in pm:
-						cur = pm[id(cur)]
-						if isinstance(cur, ast.While):
-							in_loop = True
-					ok = renders and no_raise and in_loop
-			if ok:
-				break
-		r.check(ok, f'Interactive.run:{n.func.attr}', (m.relpath, n.lineno), f'`{unparse(n)}` is not inside a try within the while loop whose handler catches Errors.Error and prints ErrorRender(e): one bad input would end the interactive session')
+					if renders and not handler_raises(h) and (not need_loop or in_while(g, t)):
+						return True
+		return False
+
+	def call_sites(g):
+		return [(h, c) for h in members if h is not g for c in walk_no_nested(h.node) if isinstance(c, ast.Call) and isinstance(c.func, ast.Attribute) and c.func.attr == g.name]
+
+	def runs_in_loop(g, depth=0) -> bool:
+		"""every call of helper g happens inside the while loop of run (directly or through another helper)"""
+		sites = call_sites(g)
+		return bool(sites) and depth <= 2 and all(in_while(h, c) if h is run else runs_in_loop(h, depth + 1) for h, c in sites)
+
+	def protected(g, node, depth=0) -> bool:
+		if g is run:
+			return caught(g, node, True)
+		if caught(g, node, False) and runs_in_loop(g):
+			return True
+		sites = call_sites(g)
+		return bool(sites) and depth <= 2 and all(protected(h, c, depth + 1) for h, c in sites)
+
+	targets = []
+	for g in members:
+		for n in walk_no_nested(g.node):
+			if isinstance(n, ast.Call) and isinstance(n.func, ast.Attribute) and n.func.attr in ('rebuild_module', 'transpile'):
+				targets.append((g, n))
+	if len(targets) < 2:
+		raise AnalysisError('C07-f: Interactive.run (and its helpers) no longer call rebuild_module and transpile')
+	for g, n in targets:
+		r.check(protected(g, n), f'Interactive.run:{n.func.attr}', (m.relpath, n.lineno), f'`{unparse(n)}` is not inside a try within the while loop whose handler catches Errors.Error and prints ErrorRender(e): one bad input would end the interactive session')
 	# __main__ guard
 	main_ok = False
 	for s in m.tree.body:
